@@ -29,7 +29,11 @@ from .common import A_LOG, PKG, logger_stub, run_catching, World
 from . import C11 as c11
 
 PROPERTY = "C10"
-LEVEL_CATEGORY = "exploration"   # the reload decision block is covered by a bounded differential only
+LEVEL_CATEGORY = "exploration"   # the middle of the reload decision is covered by a bounded differential only
+EXPLORATION_RULE = ("each evaluation is one reload (None / a context name / '*') after 0-2 random edits (modify, touch, create, delete, '#'-rename, "
+                    "un-rename, app-config change) of an 11-file tree, run by the real load_scripts on a real directory; a case is non-trivial when "
+                    "the statement's rules require at least one context to be discarded or loaded, and distinct by (reload argument, set of contexts "
+                    "to discard, list of files to load); the count is measured per run")
 I_PY = f"{PKG}/__init__.py"
 GC_PY = f"{PKG}/global_ctx.py"
 
